@@ -278,41 +278,45 @@ Proof. reflexivity. Qed.
 Lemma xeqv_fonts a b : xeqv a b -> fonts_eq (x_fonts a) (x_fonts b).
 Proof. intros [_ H]. apply H. Qed.
 
-(* SetFont: sound when the recorded old font is the font of the slot that is written *)
+(* SetFont: the recorded old font is the content of the slot that is written (`None` = the slot was empty) *)
 Definition P_setfont (o : xuop) (a b : xstate) : Prop :=
-  exists slot old new, o = XSetFont slot old new /\ fget slot (x_fonts a) = Some old /\
+  exists slot new, o = XSetFont slot (fget slot (x_fonts a)) new /\
     xeqv b (with_fonts a (fset slot new (x_fonts a))).
 
 Lemma setfont_stable : xstable P_setfont.
 Proof.
-  intros o a b (slot & old & new & -> & Hold & Hb). split; intros t Ht.
+  intros o a b (slot & new & -> & Hb). split; intros t Ht.
   - cbn [xop_undo]. eexists. split; [reflexivity|].
-    pose proof (xeqv_trans _ _ _ Ht Hb) as Htb.
-    eapply xeqv_trans; [apply (xeqv_with_fonts _ _ _ (fset slot old (fset slot new (x_fonts a))) Htb)|].
-    { apply fset_eq. apply (xeqv_fonts _ _ Htb). }
-    rewrite with_fonts_twice. apply xeqv_fonts_id. intro k. rewrite !fget_fset. destruct (k =? slot)%N eqn:E; [|reflexivity].
-    apply N.eqb_eq in E. subst. symmetry. exact Hold.
+    pose proof (xeqv_trans _ _ _ Ht Hb) as Htb. pose proof (xeqv_fonts _ _ Htb) as Hf. cbn [x_fonts with_fonts] in Hf.
+    eapply xeqv_trans; [apply (xeqv_with_fonts _ _ _ (x_fonts a) Htb)|rewrite with_fonts_twice; apply xeqv_fonts_id; apply fonts_eq_refl].
+    intro k. destruct (fget slot (x_fonts a)) as [f|] eqn:Hold.
+    + rewrite fget_fset, Hf, fget_fset. destruct (k =? slot)%N eqn:E; [|reflexivity]. apply N.eqb_eq in E. subst. symmetry. exact Hold.
+    + rewrite fget_fdel, Hf, fget_fset. destruct (k =? slot)%N eqn:E; [|reflexivity]. apply N.eqb_eq in E. subst. symmetry. exact Hold.
   - cbn [xop_redo]. eexists. split; [reflexivity|]. eapply xeqv_trans; [|apply xeqv_sym; exact Hb].
     apply xeqv_with_fonts; [exact Ht|]. apply fset_eq. apply (xeqv_fonts _ _ Ht).
 Qed.
 
-(* AddFont: sound when the slot was empty *)
-Definition P_addfont (o : xuop) (a b : xstate) : Prop :=
-  exists op np f, o = XAddFont op np f /\ fget np (x_fonts a) = None /\ xeqv b (with_fonts a (fset np f (x_fonts a))).
+(* AddFont: redo captures the font the slot held (`replaced_font`), undo takes it and puts it back *)
+Definition U_addfont (o : xuop) (a b : xstate) : Prop :=
+  exists op np f, o = XAddFont op np f (fget np (x_fonts a)) /\ xeqv b (with_fonts a (fset np f (x_fonts a))).
+Definition R_addfont (o : xuop) (a b : xstate) : Prop :=
+  exists op np f pay, o = XAddFont op np f pay /\ xeqv b (with_fonts a (fset np f (x_fonts a))).
 
-Lemma addfont_stable : xstable P_addfont.
+Lemma addfont_closed : xlclosed U_addfont R_addfont.
 Proof.
-  intros o a b (op & np & f & -> & Hnone & Hb). split; intros t Ht.
-  - cbn [xop_undo]. eexists. split; [reflexivity|].
-    pose proof (xeqv_trans _ _ _ Ht Hb) as Htb.
-    eapply xeqv_trans; [apply xeqv_with_cfp|].
-    eapply xeqv_trans; [apply (xeqv_with_fonts _ _ _ (fdel np (fset np f (x_fonts a))) Htb)|].
-    { apply fdel_eq. apply (xeqv_fonts _ _ Htb). }
-    rewrite with_fonts_twice. apply xeqv_fonts_id. intro k. rewrite fget_fdel, fget_fset. destruct (k =? np)%N eqn:E; [|reflexivity].
-    apply N.eqb_eq in E. subst. symmetry. exact Hnone.
-  - cbn [xop_redo]. eexists. split; [reflexivity|]. eapply xeqv_trans; [apply xeqv_with_cfp|].
-    eapply xeqv_trans; [|apply xeqv_sym; exact Hb].
-    apply xeqv_with_fonts; [exact Ht|]. apply fset_eq. apply (xeqv_fonts _ _ Ht).
+  split.
+  - intros o a b (op & np & f & -> & Hb) t Ht. cbn [xop_undo]. eexists _, _. split; [reflexivity|]. split.
+    + pose proof (xeqv_trans _ _ _ Ht Hb) as Htb. pose proof (xeqv_fonts _ _ Htb) as Hf. cbn [x_fonts with_fonts] in Hf.
+      eapply xeqv_trans; [apply xeqv_with_cfp|].
+      eapply xeqv_trans; [apply (xeqv_with_fonts _ _ _ (x_fonts a) Htb)|rewrite with_fonts_twice; apply xeqv_fonts_id; apply fonts_eq_refl].
+      intro k. destruct (fget np (x_fonts a)) as [r|] eqn:Hold.
+      * rewrite fget_fset, Hf, fget_fset. destruct (k =? np)%N eqn:E; [|reflexivity]. apply N.eqb_eq in E. subst. symmetry. exact Hold.
+      * rewrite fget_fdel, Hf, fget_fset. destruct (k =? np)%N eqn:E; [|reflexivity]. apply N.eqb_eq in E. subst. symmetry. exact Hold.
+    + exists op, np, f, None. auto.
+  - intros o a b (op & np & f & pay & -> & Hb) t Ht. cbn [xop_redo]. eexists _, _. split; [reflexivity|]. split.
+    + eapply xeqv_trans; [apply xeqv_with_cfp|]. eapply xeqv_trans; [|apply xeqv_sym; exact Hb].
+      apply xeqv_with_fonts; [exact Ht|]. apply fset_eq. apply (xeqv_fonts _ _ Ht).
+    + exists op, np, f. rewrite (xeqv_fonts _ _ Ht np). auto.
 Qed.
 
 (* RemoveFont: the font travels between table and payload *)
@@ -337,27 +341,36 @@ Proof.
     + exists slot, f. auto.
 Qed.
 
-(* ChangeFontSlot: sound when the target slot was empty (or is the source slot) *)
-Definition P_fontslot (o : xuop) (a b : xstate) : Prop :=
-  exists from to f, o = XChangeFontSlot from to /\ fget from (x_fonts a) = Some f /\ (from = to \/ fget to (x_fonts a) = None) /\
+(* ChangeFontSlot: redo captures the font of the target slot (after the source slot was emptied), undo takes it and puts it back *)
+Definition U_fontslot (o : xuop) (a b : xstate) : Prop :=
+  exists from to f, o = XChangeFontSlot from to (fget to (fdel from (x_fonts a))) /\ fget from (x_fonts a) = Some f /\
+    xeqv b (with_fonts a (fset to f (fdel from (x_fonts a)))).
+Definition R_fontslot (o : xuop) (a b : xstate) : Prop :=
+  exists from to f pay, o = XChangeFontSlot from to pay /\ fget from (x_fonts a) = Some f /\
     xeqv b (with_fonts a (fset to f (fdel from (x_fonts a)))).
 
-Lemma fontslot_stable : xstable P_fontslot.
+Lemma fontslot_closed : xlclosed U_fontslot R_fontslot.
 Proof.
-  intros o a b (from & to & f & -> & Hf & Hto & Hb). split; intros t Ht.
-  - cbn [xop_undo]. pose proof (xeqv_trans _ _ _ Ht Hb) as Htb.
-    rewrite (xeqv_fonts _ _ Htb to). cbn [x_fonts with_fonts]. rewrite fget_fset, N.eqb_refl.
-    eexists. split; [reflexivity|].
-    eapply xeqv_trans; [apply (xeqv_with_fonts _ _ _ (fset from f (fdel to (fset to f (fdel from (x_fonts a))))) Htb)|].
-    { apply fset_eq, fdel_eq. apply (xeqv_fonts _ _ Htb). }
-    rewrite with_fonts_twice. apply xeqv_fonts_id. intro k. rewrite fget_fset, fget_fdel, fget_fset, fget_fdel.
-    destruct (k =? from)%N eqn:E1.
-    + apply N.eqb_eq in E1. subst. symmetry. exact Hf.
-    + destruct (k =? to)%N eqn:E2; [|reflexivity]. apply N.eqb_eq in E2. subst k.
-      destruct Hto as [->|Hn]; [rewrite N.eqb_refl in E1; discriminate|]. symmetry. exact Hn.
-  - cbn [xop_redo]. rewrite (xeqv_fonts _ _ Ht from), Hf. eexists. split; [reflexivity|].
-    eapply xeqv_trans; [|apply xeqv_sym; exact Hb].
-    apply xeqv_with_fonts; [exact Ht|]. apply fset_eq, fdel_eq. apply (xeqv_fonts _ _ Ht).
+  split.
+  - intros o a b (from & to & f & -> & Hf & Hb) t Ht. cbn [xop_undo].
+    pose proof (xeqv_trans _ _ _ Ht Hb) as Htb. pose proof (xeqv_fonts _ _ Htb) as Hft. cbn [x_fonts with_fonts] in Hft.
+    rewrite (Hft to), fget_fset, N.eqb_refl. eexists _, _. split; [reflexivity|]. split.
+    + eapply xeqv_trans; [apply (xeqv_with_fonts _ _ _ (x_fonts a) Htb)|rewrite with_fonts_twice; apply xeqv_fonts_id; apply fonts_eq_refl].
+      intro k. rewrite fget_fdel. destruct (to =? from)%N eqn:Etf.
+      * apply N.eqb_eq in Etf. subst to. rewrite fget_fset, fget_fdel, Hft, fget_fset, fget_fdel.
+        destruct (k =? from)%N eqn:E; [|reflexivity]. apply N.eqb_eq in E. subst. symmetry. exact Hf.
+      * destruct (fget to (x_fonts a)) as [r|] eqn:Hto.
+        -- rewrite !fget_fset, fget_fdel, Hft, fget_fset, fget_fdel. destruct (k =? to)%N eqn:E1.
+           ++ apply N.eqb_eq in E1. subst. symmetry. exact Hto.
+           ++ destruct (k =? from)%N eqn:E2; [|reflexivity]. apply N.eqb_eq in E2. subst. symmetry. exact Hf.
+        -- rewrite fget_fset, fget_fdel, Hft, fget_fset, fget_fdel. destruct (k =? from)%N eqn:E2.
+           ++ apply N.eqb_eq in E2. subst. symmetry. exact Hf.
+           ++ destruct (k =? to)%N eqn:E1; [|reflexivity]. apply N.eqb_eq in E1. subst. symmetry. exact Hto.
+    + exists from, to, f, None. auto.
+  - intros o a b (from & to & f & pay & -> & Hf & Hb) t Ht. cbn [xop_redo]. pose proof (xeqv_fonts _ _ Ht) as Hft.
+    rewrite (Hft from), Hf. eexists _, _. split; [reflexivity|]. split.
+    + eapply xeqv_trans; [|apply xeqv_sym; exact Hb]. apply xeqv_with_fonts; [exact Ht|]. apply fset_eq, fdel_eq. exact Hft.
+    + exists from, to, f. rewrite !fget_fdel, (Hft to). auto.
 Qed.
 
 (* --- records that store whole layer lists (ReplaceFontUsage, SetIceMode, SwitchPalette): whatever the new state is *)
@@ -419,32 +432,35 @@ Proof.
     apply xeqv_with_xlayers; [|apply Forall2_leqv_refl]. apply xeqv_with_palmode, xeqv_with_pal. exact Ht.
 Qed.
 
-(* --- ResizeBuffer in the full document: Buffer::set_size also rewrites the size stored in the SAUCE record, so the record is
-       sound when there is no SAUCE record or its size is the buffer size (known finding C08-resize-rewrites-sauce-size otherwise) *)
-Definition sauce_in_sync (s : xstate) : Prop :=
-  match x_sauce s with Some sa => sa_w sa = bw (xb s) /\ sa_h sa = bh (xb s) | None => True end.
-
+(* --- ResizeBuffer in the full document: Buffer::set_size also rewrites the size stored in the SAUCE record; the record keeps the
+       size the SAUCE record carried (get_sauce_size) and undo puts it back (restore_sauce_size) *)
 Lemma xeqv_set_bsize a b w h : xeqv a b -> xeqv (x_set_bsize a w h) (x_set_bsize b w h).
 Proof.
   intros [H (H1 & H2 & H3 & H4 & H5 & H6)]. split; [cbn; apply eqv_with_bsize; exact H|].
   unfold x_set_bsize. repeat split; cbn; try assumption. rewrite H3. reflexivity.
 Qed.
 
-Lemma set_bsize_back a w h : sauce_in_sync a -> x_set_bsize (x_set_bsize a w h) (bw (xb a)) (bh (xb a)) = a.
+Lemma xeqv_sauce_restore a b sz : xeqv a b -> xeqv (sauce_restore a sz) (sauce_restore b sz).
 Proof.
-  intro Hs. destruct a as [ba p f sa i pm fm c m]. destruct ba as [w0 h0 ls cl sl mi cx cy]. unfold sauce_in_sync in Hs. cbn in *.
-  unfold x_set_bsize. cbn. destruct sa as [[sw sh sr]|]; cbn in *; [destruct Hs as [-> ->]|]; reflexivity.
+  intros Hab. pose proof Hab as [H (H1 & H2 & H3 & H4 & H5 & H6)]. unfold sauce_restore. destruct sz as [[w h]|]; [|exact Hab].
+  rewrite H3. destruct (x_sauce b); [|exact Hab]. apply xeqv_with_sauce. exact Hab.
+Qed.
+
+Lemma set_bsize_back a w h : sauce_restore (x_set_bsize (x_set_bsize a w h) (bw (xb a)) (bh (xb a))) (sauce_size a) = a.
+Proof.
+  destruct a as [ba p f sa i pm fm c m]. destruct ba as [w0 h0 ls cl sl mi cx cy].
+  unfold x_set_bsize, sauce_restore, sauce_size. cbn. destruct sa as [[sw sh sr]|]; reflexivity.
 Qed.
 
 Definition P_xresize (o : xuop) (a b : xstate) : Prop :=
-  exists nw nh, o = XResizeBuffer (bw (xb a)) (bh (xb a)) nw nh /\ sauce_in_sync a /\ xeqv b (x_set_bsize a nw nh).
+  exists nw nh, o = XResizeBuffer (bw (xb a)) (bh (xb a)) nw nh (sauce_size a) /\ xeqv b (x_set_bsize a nw nh).
 
 Lemma xresize_stable : xstable P_xresize.
 Proof.
-  intros o a b (nw & nh & -> & Hs & Hb). split; intros t Ht.
+  intros o a b (nw & nh & -> & Hb). split; intros t Ht.
   - cbn [xop_undo]. eexists. split; [reflexivity|]. eapply xeqv_trans; [apply xeqv_mask_resize|].
-    eapply xeqv_trans; [apply xeqv_set_bsize; exact (xeqv_trans _ _ _ Ht Hb)|].
-    rewrite set_bsize_back by exact Hs. apply xeqv_refl.
+    eapply xeqv_trans; [apply xeqv_sauce_restore, xeqv_set_bsize; exact (xeqv_trans _ _ _ Ht Hb)|].
+    rewrite set_bsize_back. apply xeqv_refl.
   - cbn [xop_redo]. eexists. split; [reflexivity|]. eapply xeqv_trans; [apply xeqv_mask_resize|].
     eapply xeqv_trans; [apply xeqv_set_bsize; exact Ht|apply xeqv_sym; exact Hb].
 Qed.
@@ -583,30 +599,32 @@ Qed.
 (* ================================================================================================================
    stage 3: Crop (buffer size + the whole layer list, swapped with the payload) *)
 Definition U_crop (o : xuop) (a b : xstate) : Prop :=
-  exists nw nh ls lb, o = XCrop (bw (xb a)) (bh (xb a)) nw nh ls /\ Forall2 leqv ls (xlayers a) /\ sauce_in_sync a /\
+  exists nw nh ls lb, o = XCrop (bw (xb a)) (bh (xb a)) nw nh (sauce_size a) ls /\ Forall2 leqv ls (xlayers a) /\
     xeqv b (with_xlayers (x_set_bsize a nw nh) lb).
 Definition R_crop (o : xuop) (a b : xstate) : Prop :=
-  exists nw nh ls, o = XCrop (bw (xb a)) (bh (xb a)) nw nh ls /\ sauce_in_sync a /\ xeqv b (with_xlayers (x_set_bsize a nw nh) ls).
+  exists nw nh ls, o = XCrop (bw (xb a)) (bh (xb a)) nw nh (sauce_size a) ls /\ xeqv b (with_xlayers (x_set_bsize a nw nh) ls).
 
 Lemma set_bsize_xlayers a w h l : x_set_bsize (with_xlayers a l) w h = with_xlayers (x_set_bsize a w h) l.
 Proof. reflexivity. Qed.
+Lemma sauce_restore_xlayers a sz l : sauce_restore (with_xlayers a l) sz = with_xlayers (sauce_restore a sz) l.
+Proof. unfold sauce_restore. destruct sz as [[w h]|]; [|reflexivity]. cbn [x_sauce with_xlayers with_xb]. destruct (x_sauce a); reflexivity. Qed.
 
 Lemma crop_closed : lclosed xop_undo xop_redo xeqv U_crop R_crop.
 Proof.
   split.
-  - intros o a b (nw & nh & ls & lb & -> & Hls & Hs & Hb) t Ht.
+  - intros o a b (nw & nh & ls & lb & -> & Hls & Hb) t Ht.
     pose proof (xeqv_trans _ _ _ Ht Hb) as Htb.
     cbn [xop_undo]. eexists _, _. split; [reflexivity|]. split.
     + eapply xeqv_trans.
-      { apply xeqv_with_xlayers; [|exact Hls]. eapply xeqv_trans; [apply xeqv_mask_resize|apply xeqv_set_bsize; exact Htb]. }
-      rewrite set_bsize_xlayers, with_xlayers_twice, set_bsize_back by exact Hs. apply xeqv_xlayers_id. apply Forall2_leqv_refl.
-    + exists nw, nh, (xlayers t). split; [reflexivity|]. split; [exact Hs|]. eapply xeqv_trans; [exact Hb|].
+      { apply xeqv_with_xlayers; [|exact Hls]. eapply xeqv_trans; [apply xeqv_mask_resize|apply xeqv_sauce_restore, xeqv_set_bsize; exact Htb]. }
+      rewrite set_bsize_xlayers, sauce_restore_xlayers, with_xlayers_twice, set_bsize_back. apply xeqv_xlayers_id. apply Forall2_leqv_refl.
+    + exists nw, nh, (xlayers t). split; [reflexivity|]. eapply xeqv_trans; [exact Hb|].
       apply xeqv_with_xlayers; [apply xeqv_refl|]. apply Forall2_leqv_sym. exact (xeqv_layers _ _ Htb).
-  - intros o a b (nw & nh & ls & -> & Hs & Hb) t Ht.
+  - intros o a b (nw & nh & ls & -> & Hb) t Ht.
     cbn [xop_redo]. eexists _, _. split; [reflexivity|]. split.
     + eapply xeqv_trans; [|apply xeqv_sym; exact Hb]. apply xeqv_with_xlayers; [|apply Forall2_leqv_refl].
       eapply xeqv_trans; [apply xeqv_mask_resize|apply xeqv_set_bsize; exact Ht].
-    + exists nw, nh, (xlayers t), ls. split; [reflexivity|]. split; [exact (xeqv_layers _ _ Ht)|]. split; [exact Hs|exact Hb].
+    + exists nw, nh, (xlayers t), ls. split; [reflexivity|]. split; [exact (xeqv_layers _ _ Ht)|exact Hb].
 Qed.
 
 (* ================================================================================================================
